@@ -123,7 +123,17 @@ def run_engine_k(prop, tier, seed, only=None):
             break
         # a harness file that no longer compiles against /repo's tree (e.g. a private API changed) must not
         # take the other harnesses down with it: drop the offending overlay files and try again
-        bad = sorted(set(re.findall(r"--> (src/[^:\s]*verif_kani[^:\s]*\.rs)", raw)))
+        # only files named by *errors* (warnings also carry `-->` lines)
+        bad = set()
+        lines_ = raw.split("\n")
+        for li, ln in enumerate(lines_):
+            if re.match(r"^error(\[E\d+\])?:", ln):
+                for nxt in lines_[li + 1:li + 6]:
+                    mm = re.search(r"--> (src/[^:\s]*verif_kani[^:\s]*\.rs)", nxt)
+                    if mm:
+                        bad.add(mm.group(1))
+                        break
+        bad = sorted(bad)
         bad = [b for b in bad if b in files]
         if not bad:
             break
@@ -173,8 +183,14 @@ def run_engine_k(prop, tier, seed, only=None):
                 if os.environ.get("VERIF_NO_REPLAY"):
                     out["inconclusive"].append((h.name, "violation (replay skipped): " + why))
                     continue
+                if len(out["violations"]) >= 2:
+                    # two counterexamples have already been replayed natively and reported; further failing
+                    # harnesses of the same run are listed but not replayed (each replay builds the test crate)
+                    out.setdefault("also_failing", []).append((h.name, why))
+                    r["verdict"] = "violation (not replayed)"
+                    continue
                 # replay before reporting
-                test_src, praw = kani.concrete_playback(sc, h, cap_s, mem_gb, stubbing=stubbing)
+                test_src, praw = kani.concrete_playback(sc, h, cap_s, mem_gb, stubbing=stubbing, result=r)
                 rp = os.path.join(common.REPLAY, prop, h.name + ".rs")
                 os.makedirs(os.path.dirname(rp), exist_ok=True)
                 if test_src is None:
@@ -290,6 +306,9 @@ def main():
         log("  harness %s: %s" % (n, why))
     for n, w in inconcl:
         log("INCONCLUSIVE %s: %s" % (n, w))
+    if outk is not None:
+        for n, w in outk.get("also_failing", []):
+            log("ALSO-FAILING (not replayed) %s: %s" % (n, w))
     if outk is not None:
         for h in outk["selected"]:
             r = outk["results"].get(h.full, {})
